@@ -974,8 +974,8 @@ impl Check for C25 {
             "restricted passes decide 'entry point' by the design rule (first node, replaced by the first node of a higher level); the rule is cross-checked against the real header (counter entry_point_prediction_mismatch)",
             "SQ8 tolerance: |decoded - x| <= (max-min)/255 + 4 ulp(max(|min|,|max|))",
         ];
-        s.cap_quick_s = 90;
-        s.cap_thorough_s = 1500;
+        s.cap_quick_s = 60;
+        s.cap_thorough_s = 1100;
         s.crash_is_verdict = true;
         vec![s]
     }
